@@ -416,6 +416,8 @@ def run(ck):
     ck.control('R-TABLE-web flags swapped Pauli letters', any(ok is False for _s, ok, _m in web_tables(fx['fns'][PW])))
     ck.control('R-PAIR-restore flags swapped restores', any(not r[0] for r in restore_rule(fx['fns'][DW])))
     ck.control('R-MATCH-order flags an id-sorted first block', order_rule(fx['fns'][ON])[0] is False)
+    ck.include('C09', 'detection_webs edits the diagram it is given (make_bipartite inserts spiders, edges are removed and re-added): on either back end that rests on fresh-vertex allocation and edge bookkeeping')
+
 
 
 # ---------------------------------------------------------------- D3: the column offset used by pw() is the width of the left block
